@@ -5,13 +5,6 @@ From K.Proof Require Import C35.
 Import ListNotations.
 Local Open Scope N_scope.
 
-(* a 200 whose body was cut after at least one byte: the only response after which the two
-   versions differ *)
-Definition is_partial (r : resp) : bool :=
-  match r with RResp c b false => (c =? 200) && negb (is_nil b) | _ => false end.
-Definition no_partial (os : list origin) : bool :=
-  forallb (fun o => forallb (fun r => negb (is_partial r)) (script o)) os.
-
 Lemma not_partial_written r w q :
   is_partial r = false -> http_download r = (w, q) -> q <> QOk -> w = [].
 Proof.
